@@ -126,6 +126,9 @@ def job(j):
     def on_line(rec):
         if rec["kind"] != "model":
             return
+        st["seen"] = st.get("seen", 0) + 1
+        if "part" in j and st["seen"] % j["parts"] != j["part"]:
+            return
         pieces, image = rec["pieces"], rec["image"]
         routes = (sw.ROUTES + ["string"]) if (st["n"] % j.get("route_every", 1) == 0) else (["string", "string"] if st["n"] % 4 == 1 else ["string"])
         for route in routes:
@@ -133,6 +136,14 @@ def job(j):
             eng, exc = sw.cook_model(pieces, route)
             if eng is None:
                 mm = ["valid model does not cook via %s: %r" % (route, exc)]
+            elif not rec.get("introspectable", True):
+                resp = main_loop().run(eng.execute(sw.INTROSPECTION))
+                r2 = main_loop().run(eng.execute(sw.TYPE_Q, variables={"n": "User"}))
+                mm = []
+                if (resp.get("data") or {}).get("__schema") is not None or not resp.get("errors"):
+                    mm.append("a schema marked @nonIntrospectable answered __schema: %r" % (str(resp)[:200],))
+                if (r2.get("data") or {}).get("__type") is not None:
+                    mm.append("a schema marked @nonIntrospectable answered __type")
             else:
                 resp = main_loop().run(eng.execute(sw.INTROSPECTION))
                 if resp.get("errors") or not resp.get("data"):
@@ -161,7 +172,7 @@ def main(argv):
     thorough = common.tier() == "thorough"
     jobs = [{"cfg": "MC_schema_models2.cfg" if thorough else "MC_schema_models.cfg", "route_every": 1}]
     if not thorough:
-        jobs.append({"cfg": "MC_schema_models2.cfg", "route_every": 7})
+        jobs += [{"cfg": "MC_schema_models2.cfg", "route_every": 7, "parts": 4, "part": k} for k in range(4)]
     results = genrun.run_jobs("checks.c11", "job", jobs)
     bad = genrun.merge(rep, results)
     rc = rep.finish()
